@@ -113,12 +113,6 @@ fn spell(s: &str, g: &mut Gen) -> String {
         spell_json(s)
     }
 }
-/// what the parsers do to the body of a string token
-fn lit_decode_token(tok: &str) -> String {
-    let body = &tok[1..tok.len() - 1];
-    body.replace("\\\"", "\"")
-}
-
 fn lit_token(ty: &str, v: &Val, g: &mut Gen) -> String {
     match v {
         Val::Null => "null".into(),
@@ -287,13 +281,6 @@ fn write_case(w: &mut impl Write, id: usize, sh: &Shape, nvals: usize, g: &mut G
             fl = Some(lit_token(sh.ty, &v, g));
         }
         let d = decoys(sh.ty, &v, g);
-        let mut free = false;
-        if sh.pos == "default" && matches!(sh.ty, "String" | "Base64" | "Json") {
-            if let Some(tok) = &l {
-                let dv = lit_decode_token(tok);
-                free = dv.contains('\'') || dv.contains('\0');
-            }
-        }
         let mut line = format!("val v={}", v.show());
         if let Some(l) = &l {
             line.push_str(&format!(" l={}", enc(l)));
@@ -303,9 +290,6 @@ fn write_case(w: &mut impl Write, id: usize, sh: &Shape, nvals: usize, g: &mut G
         }
         line.push_str(&format!(" d={}", d.iter().map(|x| x.show()).collect::<Vec<_>>().join(";")));
         line.push_str(&format!(" adm={}", adm as u8));
-        if free {
-            line.push_str(" free=1");
-        }
         writeln!(w, "{}", line).unwrap();
         n += 1;
     }
